@@ -50,7 +50,7 @@ def apply_ops(path, ops):
                 tr = TimeRange(start=s, end=e, absolute=(kind == 'a'), p1_t0=None if t0 is None else Timestamp(t0))
                 r.filter_in_place(tr, **kw)
             elif k == 's':
-                r.filter_in_place(slice(op[1], op[2]), **kw)
+                r.filter_in_place(slice(op[1], op[2]) if len(op) < 4 else slice(op[1], op[2], op[3]), **kw)     # index[i:j] / index[i:j:k]
             elif k == 'u':
                 r.filter_out_invalid_p1_times(**kw)
             elif k == 'c':
@@ -104,7 +104,7 @@ def op_text(op):
         f = lambda x: 'n' if x is None else str(int(round(x * rc.NS)))
         return 'T:a/%s/%s/n' % (f(op[1]), f(op[2]))
     if k == 's':
-        return 's:%d:%d' % (op[1], op[2])
+        return 's:%d:%d' % (op[1], op[2]) if len(op) < 4 else 's:%d:%d:%d' % (op[1], op[2], op[3])
     if k == 'k':
         return 'k:%d:%d' % (op[1], 1 if op[2] else 0)
     return k
@@ -149,6 +149,8 @@ def gen_plain_op(rng, msgs):
         if rng.random() < 0.2:                  # a slice that keeps everything
             return ('s', 0, n + rng.choice([0, 1, 5]))
         i = rng.randrange(0, n + 2)
+        if rng.random() < 0.35:                 # every k-th entry of a part: index[i:j:k]
+            return ('s', rng.choice([0, 0, 1, i]), rng.choice([n, n + 3, rng.randrange(i, n + 3)]), rng.choice([1, 2, 2, 3, 4, 5, n + 1]))
         return ('s', i, rng.randrange(i, n + 3))
     if k == 'k':
         return ('k', rng.randrange(0, n + 2), rng.random() < 0.5)
@@ -213,7 +215,7 @@ def run(ctx, budget):
     # bounded-exhaustive short scripts over a small alphabet on one log
     lg = logs[-1] if len(logs[-1][2]) >= 2 else max(logs, key=lambda x: len(x[2]))
     types = sorted(set(m['type'] for m in lg[2])) or [10000]
-    alphabet = [('r',), ('t', [types[0]]), ('t', [types[-1]]), ('u',), ('c',), ('w',), ('e',), ('s', 1, 3), ('k', 1, True), ('k', 1, False),
+    alphabet = [('r',), ('t', [types[0]]), ('t', [types[-1]]), ('u',), ('c',), ('w',), ('e',), ('s', 1, 3), ('s', 0, 99, 2), ('k', 1, True), ('k', 1, False),
                 ('T', ('r', 0.25, None, None))]
     L = 4 if ctx.thorough else 3
     for script in itertools.product(alphabet, repeat=L):
